@@ -47,6 +47,32 @@ def unwrap_view(x):
     return unwrap(x)
 
 
+_SEQCACHE = {}
+
+
+def _has_seq_term(e):
+    """does the formula contain string / sequence-theory terms?  (left out of path pruning: the sequence solver is slow and pruning is optional)"""
+    i = e.get_id()
+    r = _SEQCACHE.get(i)
+    if r is not None:
+        return r
+    seen, stack, found = set(), [e], False
+    while stack:
+        t = stack.pop()
+        if t.get_id() in seen:
+            continue
+        seen.add(t.get_id())
+        if z3.is_app(t):
+            if t.sort().kind() == z3.Z3_SEQ_SORT:
+                found = True
+                break
+            stack.extend(t.children())
+        elif z3.is_quantifier(t):
+            stack.append(t.body())
+    _SEQCACHE[i] = found
+    return found
+
+
 class Unsupported(Exception):
     def __init__(self, msg, node=None):
         self.node = node
@@ -259,8 +285,8 @@ class Exec:
         # a deterministic resource limit (not wall time) so that the set of explored paths does not depend on machine load
         s.set("rlimit", 2000000)
         s.set("timeout", 20000)
-        qf = [h for h in st.pc if not _has_quantifier(h)]
-        fs = qf + ([extra] if extra is not None else [])
+        qf = [h for h in st.pc if not _has_quantifier(h) and not _has_seq_term(h)]
+        fs = qf + ([extra] if extra is not None and not _has_seq_term(extra) else [])
         for h in self.lib.theory_axioms(fs):
             if not _has_quantifier(h):
                 s.add(h)
@@ -427,6 +453,17 @@ class Exec:
     def stmt_Expr(self, s, st):
         if isinstance(s.value, ast.Constant):
             return [Out("next", None, st)]       # docstring
+        if isinstance(s.value, ast.Yield):
+            # generator: the yielded value is appended to the ghost output sequence (`yielded`)
+            from . import weblib
+            res = []
+            for o in (self.eval(s.value.value, st) if s.value.value is not None else [Out("val", None, st)]):
+                if o.kind != "val":
+                    res.append(o)
+                    continue
+                weblib.do_yield(self, o.st, o.val, s)
+                res.append(Out("next", None, o.st))
+            return res
         return [Out("next", None, o.st) if o.kind == "val" else o for o in self.eval(s.value, st)]
 
     def stmt_Return(self, s, st):
@@ -922,7 +959,7 @@ class Exec:
         entry_alloc = st.alloc
         for m in mods:
             fld, who = (m if isinstance(m, tuple) else (m, None))
-            if fld in ("warnings", "alloc"):
+            if fld in ("warnings", "alloc", "yielded", "requests"):
                 continue
             if who is None or who == "ALL":
                 self.havoc_heap(st, [fld])
@@ -983,8 +1020,14 @@ class Exec:
                 if isinstance(cur, pdlib.FrameV):
                     h.assign(n, pdlib.fresh_frame(n))
                     continue
+                if hasattr(cur, "havoc"):
+                    h.assign(n, cur.havoc(n))
+                    continue
                 raise Unsupported(f"cannot havoc loop-modified local {n}={cur!r}", s)
             h.assign(n, ty.fresh(t, n))
+        for gname in ("yielded", "requests"):
+            if gname in h.ghost and gname in spec.modifies:
+                h.ghost[gname] = z3.Const(ty.fresh_name(gname), h.ghost[gname].sort())
         for gname, gt in spec.ghost_vars.items():
             # ghost loop variables: arbitrary at the loop head (constrained by the invariant), updated by ghost_step at the end of an iteration
             gv = ty.fresh(gt, gname)
@@ -1736,6 +1779,10 @@ class Exec:
                 fld, who = m
             else:
                 fld, who = m, None
+            if fld in ("yielded", "requests"):
+                if fld in st.ghost:
+                    st.ghost[fld] = z3.Const(ty.fresh_name(fld), st.ghost[fld].sort())
+                continue
             if fld == "warnings":
                 wc = z3.Int(ty.fresh_name("warns"))
                 st.assume(wc >= ty.to_z3num(st.warn_count))
@@ -1933,7 +1980,7 @@ class Exec:
         pre = self.view(old, bound)
         for m in (c.modifies or []):
             fld, who = (m if isinstance(m, tuple) else (m, None))
-            if fld in ("warnings", "alloc"):
+            if fld in ("warnings", "alloc", "yielded", "requests"):
                 allowed[fld] = "ALL"
                 continue
             cls, fname = fld.split(".", 1)
